@@ -168,6 +168,44 @@ def check_case(case):
                     else:
                         res.bad("C04/direct-apply-of-inapplicable-did-not-raise", {**info, "step": i})
                 break
+    # the same plan executed by hand, one Operator object per distinct plan line (re-used whenever the line comes
+    # again): every successor is the reference's, every inapplicable step raises and leaves the state as it was
+    if not res.disc and not known_k3:
+        objs = lib_objects(domain, build_objects(domain, objects))
+        cache = {}
+        oks, state = lib_call(build_state, domain, world, init)
+        for i, r in enumerate(ref):
+            if not oks or r["why"] is not None or r.get("post_model") is not None or bool(r["lib_applicable"]) != bool(r["applicable"]):
+                break
+            a = plan[i]
+            if tuple(a) not in cache:
+                oko, o = lib_call(lambda: Operator(domain.actions[a[0]], domain, list(a[1:]), objs))
+                if not oko:
+                    break
+                cache[tuple(a)] = o
+            else:
+                res.classes.append("manual-operator-reused")
+            okd, out = lib_call(cache[tuple(a)].apply, state)
+            if r["applicable"]:
+                if not okd:
+                    res.bad(f"C04/by-hand/exception:{out.key}", {**info, "step": i, "error": repr(out)})
+                    break
+                try:
+                    got_post = read_lib_state(out)
+                except BadState as e:
+                    res.bad("C04/by-hand/unreadable-state", {**info, "step": i, "error": repr(e)})
+                    break
+                if not pddl.states_equal(r["post"], got_post):
+                    res.bad("C04/by-hand/successor", {**info, "step": i, "reused": len(cache) <= i, "diff": pddl.state_diff(r["post"], got_post)})
+                    break
+                state = out
+            else:
+                if okd:
+                    res.bad("C04/by-hand/inapplicable-did-not-raise", {**info, "step": i})
+                    break
+                if not pddl.states_equal(r["pre"], read_lib_state(state)):
+                    res.bad("C04/by-hand/refused-step-changed-state", {**info, "step": i})
+                    break
     res.evals = len(plan)
     return res
 
